@@ -779,6 +779,28 @@ func testHook(err error, p redact.SafePrinter, verb rune) {
 
 // --------------------------------------------------------------- C08
 
+// nestedJoin: a SafeFormatter that prints redactables through its SafePrinter (k: Print, Printf, JoinTo).
+type nestedJoin struct {
+	parts []redact.RedactableString
+	k     int
+}
+
+func (j nestedJoin) SafeFormat(w redact.SafePrinter, _ rune) {
+	switch j.k {
+	case 0:
+		for i, p := range j.parts {
+			if i > 0 {
+				w.SafeString(", ")
+			}
+			w.Print(p)
+		}
+	case 1:
+		w.Printf("%v, %v", j.parts[0], j.parts[1])
+	default:
+		redact.JoinTo(w, ", ", j.parts)
+	}
+}
+
 func streamCompose(rep *Report, tier string, seed uint64) {
 	n := 20000
 	if tier == "thorough" {
@@ -807,6 +829,21 @@ func streamCompose(rep *Report, tier string, seed uint64) {
 					d = "%v"
 				}
 				var orc []string
+				if i%16 == 0 {
+					// a redactable produced by a formatter that printed through its SafePrinter (nested
+					// printers: Print, Printf, JoinTo), held, and re-printed right away behind a literal:
+					// the held string must not change and the re-print must be literal + string
+					parts := []redact.RedactableString{pool[r.Intn(len(pool))], pool[r.Intn(len(pool))]}
+					held := redact.Sprint(nestedJoin{parts, r.Intn(3)})
+					heldCopy := string(append([]byte(nil), held...))
+					lit := []string{"id=", "x ", "‹", "a long literal in front of it: "}[r.Intn(4)]
+					again := redact.Sprintf(strings.ReplaceAll(lit, "%", "%%")+"%s", held)
+					if string(held) != heldCopy {
+						orc = append(orc, fmt.Sprintf("C08:a redactable obtained earlier changed when it was re-printed: %q became %q", heldCopy, held))
+					} else if want := string(redact.Sprintf(strings.ReplaceAll(lit, "%", "%%"))) + heldCopy; string(again) != want {
+						orc = append(orc, fmt.Sprintf("C08:Sprintf(%q, r) = %q for r = %q", lit+"%s", again, heldCopy))
+					}
+				}
 				var arg interface{} = rs
 				asBytes := r.Chance(30)
 				if asBytes {
@@ -1212,6 +1249,16 @@ type sfErr struct{ s string }
 
 func (e sfErr) Error() string                           { return "sfErr:" + e.s }
 func (e sfErr) SafeFormat(p redact.SafePrinter, _ rune) { p.SafeString("SFERR"); p.UnsafeString(e.s) }
+
+// sfErrW: an error that is a SafeFormatter whose SafeFormat prints its cause through a nested
+// Printf that itself uses %w (a nested call is a Sprintf-like call: %w is a bad verb there and
+// must neither capture nor cancel anything in the enclosing HelperForErrorf call)
+type sfErrW struct{ cause error }
+
+func (e sfErrW) Error() string { return "sfErrW:" + e.cause.Error() }
+func (e sfErrW) SafeFormat(p redact.SafePrinter, _ rune) {
+	p.Printf("op failed: %w", e.cause)
+}
 
 func streamHook(rep *Report, tier string, seed uint64) {
 	RunStream(rep, "P-errorhook", true, "7 error kinds x positions {top, %w via HelperForErrorf, slice, map value, exported field, unexported field, interface, Unsafe, Safe} x 8 directives x hook {absent, plain, panicking}", false, 1,
